@@ -122,7 +122,7 @@ impl<T, N: ArrayLength> GenericArrayIter<T, N> {
         Seq::new((self.index_back - self.index) as nat, |j: int| self.array.view()[self.index + j].unwrap())
     }
 
-    // extracted from src/iter.rs:219  `fn len(&self) -> usize`
+    // extracted from src/iter.rs:229  `fn len(&self) -> usize`
     fn len(&self) -> (r: usize)
         requires
             self.wf(),
@@ -174,7 +174,7 @@ impl<T, N: ArrayLength> GenericArrayIter<T, N> {
     }
     proof fn reach_next(self) requires self.wf(), { assert(false); } /*OB:canary.next:*/
 
-    // extracted from src/iter.rs:165  `fn next_back(&mut self) -> Option<T>`
+    // extracted from src/iter.rs:175  `fn next_back(&mut self) -> Option<T>`
     fn next_back(&mut self) -> (r: Option<T>)
         requires
             old(self).wf(),
@@ -202,7 +202,7 @@ impl<T, N: ArrayLength> GenericArrayIter<T, N> {
     }
     proof fn reach_next_back(self) requires self.wf(), { assert(false); } /*OB:canary.next_back:*/
 
-    // extracted from src/iter.rs:142  `fn nth(&mut self, n: usize) -> Option<T>`
+    // extracted from src/iter.rs:152  `fn nth(&mut self, n: usize) -> Option<T>`
     fn nth(&mut self, n: usize) -> (r: Option<T>)
         requires
             old(self).wf(),
@@ -237,7 +237,7 @@ impl<T, N: ArrayLength> GenericArrayIter<T, N> {
     }
     proof fn reach_nth(self, n: usize) requires self.wf(), { assert(false); } /*OB:canary.nth:*/
 
-    // extracted from src/iter.rs:203  `fn nth_back(&mut self, n: usize) -> Option<T>`
+    // extracted from src/iter.rs:213  `fn nth_back(&mut self, n: usize) -> Option<T>`
     fn nth_back(&mut self, n: usize) -> (r: Option<T>)
         requires
             old(self).wf(),
@@ -313,24 +313,25 @@ impl<T, N: ArrayLength> GenericArrayIter<T, N> {
     }
     proof fn reach_drop_impl(self) requires self.wf(), { assert(false); } /*OB:canary.drop_impl:*/
 
-    // extracted from src/iter.rs:138  `fn count(self) -> usize`
-    fn count(self) -> (r: (usize, Self))
+    // extracted from src/iter.rs:138  `fn count(mut self) -> usize`
+    fn count(self) -> (r: usize)
         requires
             self.wf(),
         ensures
-            r.0 == self.remaining().len(), /*OB:count.post.count:C06*/
-            r.1.array.ok() && r.1.array.all_dead(), /*OB:count.post.dropped:C03,C05*/
+            r == self.remaining().len(), /*OB:count.post.count:C06*/
     {
         let mut this = self;
-        let __ret = {
-            this.len()
-        };
-        this.drop_impl();
-        (__ret, this)
+        let len = this.len();
+        {
+            let __s = this.as_mut_slice();
+            this.array.drop_range(__s.lo, __s.hi);
+        }
+        this.array.forget();
+        len
     }
     proof fn reach_count(self) requires self.wf(), { assert(false); } /*OB:canary.count:*/
 
-    // extracted from src/iter.rs:157  `fn last(mut self) -> Option<T>`
+    // extracted from src/iter.rs:167  `fn last(mut self) -> Option<T>`
     fn last(self) -> (r: (Option<T>, Self))
         requires
             self.wf(),
@@ -394,7 +395,7 @@ impl<T, N: ArrayLength> GenericArrayIter<T, N> {
     }
     proof fn reach_fold<B, F: Foreign2<B, T, B>>(self, init: B, f: F) requires self.wf(), f.log().len() == 0, { assert(false); } /*OB:canary.fold:*/
 
-    // extracted from src/iter.rs:175  `fn rfold<B, F>(mut self, init: B, mut f: F) -> B where F: FnMut(B, Self::Item) -> B,`
+    // extracted from src/iter.rs:185  `fn rfold<B, F>(mut self, init: B, mut f: F) -> B where F: FnMut(B, Self::Item) -> B,`
     fn rfold<B, F: Foreign2<B, T, B>>(self, init: B, f: &mut F) -> (ret: B)
         requires
             self.wf(),
